@@ -1,4 +1,5 @@
 """C20 — style settings resolve by precedence and never leak"""
+from corr import style_family
 from oracles import c20 as oracle
 
 GEN = ["Defaults"]
@@ -7,6 +8,11 @@ PROPS = ["MagpyVerif.Props.C20"]
 
 
 def run(ctx, model_ok):
+    if ctx.driver_ok:
+        st, sfails = style_family.run_stream(ctx, ctx.scale(300, 10000))
+        ctx.failing += sfails
+        ctx.cov["correspondence_samples"] = st.pop("samples")
+        ctx.cov["correspondence"] = st
     budget = 3 if len(ctx.broken) else 1
     fails, ost = oracle.sweep(ctx, ctx.scale(12, 400) * budget)
     ctx.failing += fails
@@ -17,7 +23,18 @@ def run(ctx, model_ok):
                        "values; per leaf ~10 checks (4 sources, 3 notations, last-wins, 2 leak tests, reset); distinct = (family, leaf) pairs")
     ctx.cov["traces_validated_against_impl"] = ost["c20_leaf_cases"]
     ctx.cov["samples"] = [ost]
-    ctx.cov["not_shown"] = ["MagicProperties' property machinery (validators, nested object creation), magic_to_dict/linearize inverse, copy independence in the CPython heap: oracle only",
+    if "correspondence" in ctx.cov:
+        ctx.cov["evaluations"] += ctx.cov["correspondence"]["cases"]
+        ctx.cov["traces_validated_against_impl"] += ctx.cov["correspondence"]["cases"]
+        ctx.cov["rule"] += ("; style stream: random nested / magic-keyword dictionaries (depth <= 4, small key alphabet, both separators, None/int leaves, error shapes) through "
+                            "magic_to_dict, linearize_dict, update_nested_dict (4 flag combinations, id()-sharing), MagicProperties.update and get_style's two updates on "
+                            "property classes built for random schemas, compared exactly with Model/StyleNested.lean")
+    ctx.cov["not_shown"] = ["validators of the concrete style classes (colour, symbol, line-style normalisation) and CPython attribute dispatch: style oracle + mp/resolve streams only "
+                            "(the model's `assign` covers plain and sub-object properties, tied by the stream, no theorem about it)",
+                            "linearize_dict(magic_to_dict(kw)) is shown equal to kw as a key->value map (lookup equality), not as an ordered list: magic_to_dict groups keys by first segment",
+                            "separators of more than one character (the model's split/join take one character; magpylib uses '_' and '.')",
+                            "copy independence in the CPython heap: for update_nested_dict modelled with addresses (theorem update_nested_sharing, stream compares id()), "
+                            "for style objects oracle only",
                             "enumeration-valued leaves (symbols, line styles) are sampled only through their defaults"]
 
 
